@@ -38,6 +38,7 @@ MIN_INSTANCES = 18
 
 
 def retry_ids(ctx: Ctx, rule: str) -> None:
+    ctx.require_locals(T.RTN, ["uid", "run_times", "original_prefix", "name", "node_result"])
     views = function_views(ctx, T.RTN, names_interesting({"prefix", "shared_results", "id_test", "uid", "run_test_task", "results", "sleep"}),
                            roles=["node", "status_timeout"])
     n, problems = 0, []
